@@ -759,7 +759,8 @@ def replay(ctx, payload):
     if "session_history" in payload["case"]:
         case = payload["case"]
         eval_cases(ctx, case["session_history"] + [case], independent_struct_table(common.REPO), env={})
-    elif "rw" in payload["case"]:
+    elif "rw" in payload["case"] and "jitter" in payload["case"]:
+        # (a through-burst case of the C06 composition stream; struct / per-core field cases also carry an "rw" key)
         from harness import c06
         ctx.rw_decides = True
         c06.eval_rw_cases(ctx, [payload["case"]])
